@@ -9,6 +9,6 @@ for s in $seeds; do
   p=$(python3 -c "import json;print(json.load(open('seeded/$s/meta.json'))['property'])")
   out=$(tools/tryseed.sh $s $p 2>&1 | head -1)
   echo "$out"
-  case "$out" in *exit=1*) ;; *) case "$s" in C01b|C15b|C20b|C08r6|C09r6|C11r6|C03r4|C15r4|C12r3|C03r5|C16r5|C18r5|C18r3) echo "  (recorded in DESIGN.md section 7 as missed: outside the decided clauses)";; *) rc=1;; esac;; esac
+  case "$out" in *exit=1*) ;; *) case "$s" in C01b|C15b|C20b|C08r6|C09r6|C03r4|C15r4|C12r3|C03r5|C16r5|C18r5|C18r3) echo "  (recorded in DESIGN.md section 7 as missed: outside the decided clauses)";; *) rc=1;; esac;; esac
 done
 exit $rc
